@@ -861,6 +861,23 @@ fn run_tests(
             attributes,
             ..
         } => {
+            if opts.update && (attributes.skip() || !attributes.platform) {
+                // Tests that are not run keep their place and their expected output.
+                let output = if attributes.cst {
+                    output.clone()
+                } else {
+                    format_sexp(&output, 0)
+                };
+                corrected_entries.push(TestCorrection::new(
+                    &name,
+                    String::from_utf8(input.clone()).unwrap(),
+                    output,
+                    &attributes_str,
+                    header_delim_len,
+                    divider_delim_len,
+                ));
+            }
+
             if attributes.skip() {
                 test_summary.parse_results.add_case(TestResult {
                     name,
